@@ -280,6 +280,7 @@ type Outcome struct {
 	Undecided string
 	Asked     []string // atoms the world was asked (for diagnostics)
 	CutBlock  *ssa.BasicBlock
+	Assumed   []string // assertions (conditions guarding nothing but a panic) taken to hold
 	Path      []int             // indices of the region function's blocks, in execution order (after the prologue)
 	Env       map[string]string // final value of every phi of the region function, by source name
 }
@@ -502,9 +503,9 @@ func (r *Run) exec(fr *frame, b *ssa.BasicBlock, skipPhis bool) (string, []Val) 
 				if !ok {
 					break
 				}
-				if v, ok := r.reg.PhiInputs[phi.Comment]; ok {
+				if v, ok := r.reg.PhiInputs[phiNameFor(fr.fn, phi)]; ok {
 					fr.env[phi] = v
-					used[phi.Comment] = true
+					used[phiNameFor(fr.fn, phi)] = true
 				} else {
 					freePhis = append(freePhis, phi)
 				}
@@ -547,8 +548,8 @@ func (r *Run) exec(fr *frame, b *ssa.BasicBlock, skipPhis bool) (string, []Val) 
 				}
 				for i, p := range b.Preds {
 					if p == fr.prev {
-						key := phi.Comment
-						if a, ok := r.alias[key]; ok && b == r.reg.Start {
+						key := phiNameFor(fr.fn, phi)
+						if a, ok := r.alias[phi.Comment]; ok && b == r.reg.Start {
 							key = a
 						}
 						r.out.NextPhi[key] = render(r.val(fr, phi.Edges[i]))
@@ -564,8 +565,8 @@ func (r *Run) exec(fr *frame, b *ssa.BasicBlock, skipPhis bool) (string, []Val) 
 				if !ok {
 					break
 				}
-				present[phi.Comment] = true
-				if !knownLoopVar[phi.Comment] {
+				present[phiNameFor(fr.fn, phi)] = true
+				if !knownLoopVar[phiNameFor(fr.fn, phi)] {
 					unknown[kindOfType(phi.Type())] = append(unknown[kindOfType(phi.Type())], phi)
 				}
 			}
@@ -573,7 +574,7 @@ func (r *Run) exec(fr *frame, b *ssa.BasicBlock, skipPhis bool) (string, []Val) 
 				if len(phis) != 1 {
 					continue
 				}
-				val, ok := r.out.NextPhi[phis[0].Comment]
+				val, ok := r.out.NextPhi[phiNameFor(fr.fn, phis[0])]
 				if !ok {
 					continue
 				}
@@ -631,7 +632,25 @@ func (r *Run) exec(fr *frame, b *ssa.BasicBlock, skipPhis bool) (string, []Val) 
 			case *ssa.Jump:
 				next = b.Succs[0]
 			case *ssa.If:
-				c := r.truth(r.val(fr, x.Cond))
+				cv := r.val(fr, x.Cond)
+				if at, isAtom := cv.(VAtom); isAtom {
+					// an assertion — a condition the world says nothing about, one of whose outcomes does nothing
+					// but panic — is taken to hold: the rules are about what the code does when it does not
+					// give up with a panic (which is never a silent wrong result)
+					if _, known := r.w.Atom(at.Key); !known {
+						p0, p1 := panicsOnly(b.Succs[0]), panicsOnly(b.Succs[1])
+						if p0 != p1 {
+							r.out.Assumed = append(r.out.Assumed, at.Key)
+							if p0 {
+								next = b.Succs[1]
+							} else {
+								next = b.Succs[0]
+							}
+							continue
+						}
+					}
+				}
+				c := r.truth(cv)
 				if c {
 					next = b.Succs[0]
 				} else {
@@ -1138,8 +1157,8 @@ func (r *Run) eq(a, b Val) Val {
 	if res, ok := r.w.Atom(key); ok {
 		return boolConst(res)
 	}
-	r.fail("the world does not decide %q", key)
-	return nil
+	// left open: whoever branches on it must have the world decide it (or it guards an assertion)
+	return VAtom{Key: key}
 }
 
 func (r *Run) isNil(v Val) Val {
@@ -1179,8 +1198,7 @@ func (r *Run) less(a, b Val) Val {
 	if res, ok := r.w.Atom(key); ok {
 		return boolConst(res)
 	}
-	r.fail("the world does not decide %q", key)
-	return nil
+	return VAtom{Key: key}
 }
 
 func (r *Run) typeAssert(fr *frame, x *ssa.TypeAssert) Val {
@@ -1731,4 +1749,22 @@ func autoInlinable(f *ssa.Function) bool {
 	}
 	autoInlineMemo[f] = ok
 	return ok
+}
+
+// panicsOnly: the block computes a message and panics (possibly through one more straight-line block).
+func panicsOnly(b *ssa.BasicBlock) bool {
+	for i := 0; i < 3 && b != nil; i++ {
+		if len(b.Instrs) == 0 {
+			return false
+		}
+		switch b.Instrs[len(b.Instrs)-1].(type) {
+		case *ssa.Panic:
+			return true
+		case *ssa.Jump:
+			b = b.Succs[0]
+		default:
+			return false
+		}
+	}
+	return false
 }
